@@ -63,7 +63,7 @@ class Ownership:
             for root in r:
                 if isinstance(root, tuple) and root and root[0] == "elem":
                     out.add(root[1])          # element of a container that holds the alias
-                elif _is_view_index(expr.slice):
+                elif _is_view_index(expr.slice) or self._slice_attr(expr.slice, selfname, ci):
                     out.add(root)             # slice / row selection of an array is a view
             return out
         if isinstance(expr, ast.IfExp):
@@ -112,6 +112,13 @@ class Ownership:
                     return self._via_summary(mi, None, mi.functions[f.id], expr, amap, selfname, attr_alias, ci, mi, depth)
                 return set()
         return set()
+
+    def _slice_attr(self, sl, selfname, ci):
+        """`x[self.s]` where every assignment of self.s in the class hierarchy is a `slice(...)` object: a view."""
+        if not (selfname and ci is not None and isinstance(sl, ast.Attribute) and isinstance(sl.value, ast.Name) and sl.value.id == selfname):
+            return False
+        sites = self.prog.self_assignments(ci, sl.attr)
+        return bool(sites) and all(isinstance(v, ast.Call) and isinstance(v.func, ast.Name) and v.func.id == "slice" for _, _, _, v in sites)
 
     def _via_summary(self, fmi, fci, fn, call, amap, selfname, attr_alias, ci, mi, depth):
         summ = self.summary(fmi, fci, fn, depth - 1)
@@ -375,4 +382,19 @@ def class_mutation_sinks(own: Ownership, prog, ci, attr_alias, skip=("__init__",
             own.walk(fn.body, amap, selfname, aa, ci, c.module, sinks, 3)
             for root, line, text in sinks:
                 out.append((root, c, fn, line, text))
+    return out
+
+
+def param_mutations(own: Ownership, ci, fn, mi=None):
+    """[(parameter name, lineno, text)] - in-place updates of a caller-owned argument (directly or through a view / alias)."""
+    mi = mi or (ci.module if ci is not None else None)
+    summ = own.summary(mi, ci, fn)
+    params = [a.arg for a in fn.args.args]
+    is_static = any(ast.unparse(d) == "staticmethod" for d in fn.decorator_list)
+    if ci is not None and not is_static and params:
+        params = params[1:]
+    out = []
+    for i, hits in sorted(summ.mutates_params.items()):
+        for line, text in hits:
+            out.append((params[i] if i < len(params) else f"#{i}", line, text))
     return out
